@@ -44,11 +44,12 @@ func main() {
 		Level: "fault_enumeration",
 		Pkg:   "./cmd/c08",
 		Rule: "one evaluation = one scenario (energy rows of 3..12 slots with positive / negative / sentinel(2) / unparsable(3) readings appearing in 1..3 groups, " +
-			"per-datagram fates drop/deliver/dup/delay, 0..2 faulty sync rounds with per-connection fates refuse/reset/short/garble/pass, 0..2 decoy map entries, optional rotation or restart, one fault-free round) judged by the oracle. " +
+			"per-datagram fates drop/deliver/dup/delay, 0..2 faulty sync rounds with per-connection fates refuse/reset/short/garble/pass, 0..2 decoy map entries, optional rotation or restart, one fault-free round) judged by the oracle; " +
+			"'dense' scenarios: 16..40 consecutive slots starting at a multiple of 8 of the window (or +1/+7), all originals delivered except the slot right after one or two completely received bitfield bytes and a few others, optionally one lost row rewritten by the meter after it was reported. " +
 			"Non-trivial = at least one required slot was absent on the server immediately before the final round and present after it (the recovery path was really exercised); " +
 			"distinct by (slot classes, per-slot loss history, sync fates, event).",
 		Assumptions: []string{
-			"readings fit 32 signed bits after scaling (the property excludes others); one energy row per timeslot (conflicting rows are C09's subject)",
+			"readings fit 32 signed bits after scaling (the property excludes others); one energy row per timeslot, except that dense scenarios rewrite one already reported row (what the client may sign then is C09's subject; here only: the stored reading and its retransmissions stay what was first sent)",
 			"'eventually' is bounded: the oracle is evaluated after one fault-free sync round whose retransmissions were all handed to the server (relay forwarded-count == server udp.done count)",
 			"loopback UDP between relay and server does not lose datagrams; if it did the barrier would time out and the run would be inconclusive, not violated",
 			"a final round that does not complete although the path is fault-free makes the scenario inconclusive (the property is conditional on a completed round; reply acceptance is C10's subject)",
@@ -76,6 +77,9 @@ func main() {
 			c.Require("sync_rounds_failed", 1)
 			c.Require("event.rotate", 1)
 			c.Require("event.restart", 1)
+			c.Require("dense_scenarios_judged", 20)
+			c.Require("dense.full_byte_then_missing_slot_before_final_round", 20)
+			c.Require("rows_rewritten_after_first_report", 3)
 			if n := c.Counter("exhaustive_scenarios_judged"); n > 0 {
 				c.SetExtra("exhaustive_subspaces", []map[string]interface{}{{
 					"what":       fmt.Sprintf("m=%d slots: every original-loss pattern (2^%d) x every retransmission-loss pattern of the penultimate round (2^%d)", exhaustiveM, exhaustiveM, exhaustiveM),
@@ -99,6 +103,9 @@ func plan(tier string, seed int64) []run.Batch {
 		for i := 0; i < 160; i += 5 {
 			add("random", i, i+5, 150)
 		}
+		for i := 0; i < 24; i += 4 {
+			add("dense", i, i+4, 150)
+		}
 		x := int(uint64(seed)*2654435761%uint64(1<<(2*exhaustiveM))) &^ 63
 		for i := 0; i < 256; i += 64 {
 			add("exhaustive", (x+i)%(1<<(2*exhaustiveM)), (x+i)%(1<<(2*exhaustiveM))+64, 240)
@@ -107,6 +114,9 @@ func plan(tier string, seed int64) []run.Batch {
 	}
 	for i := 0; i < 2000; i += 25 {
 		add("random", i, i+25, 240)
+	}
+	for i := 0; i < 400; i += 25 {
+		add("dense", i, i+25, 240)
 	}
 	for i := 0; i < 1<<(2*exhaustiveM); i += 64 {
 		add("exhaustive", i, i+64, 240)
@@ -142,6 +152,10 @@ type scenario struct {
 	LateOrig   bool        `json:"originals_overtaken_by_retransmissions"`
 	LossA      int         `json:"orig_loss_mask,omitempty"`
 	LossB      int         `json:"retrans_loss_mask,omitempty"`
+	DenseLost  []uint32    `json:"dense_lost_slots,omitempty"`
+	DenseBound []uint32    `json:"dense_lost_right_after_full_byte,omitempty"`
+	RewriteAt  uint32      `json:"rewritten_row_slot,omitempty"`
+	RewriteTo  string      `json:"rewritten_row_new_text,omitempty"`
 	PhaseTrace []string    `json:"trace"`
 }
 
@@ -372,10 +386,13 @@ func runScenario(sc *scenario, b run.Batch, r *ev.Result) (fatal bool) {
 		return false
 	}
 	exh := sc.Kind == "exhaustive"
+	dense := sc.Kind == "dense"
 
 	// ---- server
 	if exh {
 		sc.Base = 0
+	} else if dense {
+		sc.Base = []uint32{0, 0, 2500, 7000}[rng.Intn(4)]
 	} else {
 		switch rng.Intn(3) {
 		case 0:
@@ -440,6 +457,66 @@ func runScenario(sc *scenario, b run.Batch, r *ev.Result) (fatal bool) {
 		classes := []string{"positive", "negative", "sentinel", "unparsable", "negative", "positive"}
 		for i := 0; i < exhaustiveM; i++ {
 			sc.Rows = append(sc.Rows, row{Slot: sc.Now0 - 3 + uint32(i), Class: classes[i], Text: genValue(rng, classes[i]), Group: 0})
+		}
+	} else if dense {
+		// 16..40 consecutive slots starting at a multiple of 8 of the window (or 1 / 7 past it,
+		// as controls); every original is delivered except a subset that contains the slot
+		// right after one or two completely delivered bytes of the bitfield, plus a few others.
+		sc.Groups, sc.Decoys, sc.Event = 1, 0, ""
+		n := 16 + rng.Intn(25)
+		mis := []uint32{0, 0, 0, 1, 7}[rng.Intn(5)]
+		startIdx := uint32(8*(10+rng.Intn(300))) + mis
+		sc.Now0 = O + startIdx + uint32(rng.Intn(n))
+		sc.Now1 = sc.Now0
+		for i := 0; i < n; i++ {
+			cl := []string{"positive", "negative", "sentinel", "unparsable"}[pick(uint64(rng.Int63()), 40, 30, 15, 15)]
+			sc.Rows = append(sc.Rows, row{Slot: O + startIdx + uint32(i), Class: cl, Text: genValue(rng, cl)})
+		}
+		var bounds []uint32
+		for idx := (startIdx + 7) / 8 * 8; idx < startIdx+uint32(n); idx += 8 {
+			if idx >= startIdx+8 {
+				bounds = append(bounds, idx)
+			}
+		}
+		rng.Shuffle(len(bounds), func(a, b int) { bounds[a], bounds[b] = bounds[b], bounds[a] })
+		nbd := 1 + rng.Intn(2)
+		if nbd > len(bounds) {
+			nbd = len(bounds)
+		}
+		lost := map[uint32]bool{}
+		protected := map[uint32]bool{}
+		for _, bd := range bounds[:nbd] {
+			lost[O+bd] = true
+			sc.DenseBound = append(sc.DenseBound, O+bd)
+			for k := uint32(1); k <= 8; k++ {
+				protected[O+bd-k] = true
+			}
+		}
+		for k := rng.Intn(4); k > 0; k-- {
+			t := O + startIdx + uint32(rng.Intn(n))
+			if !protected[t] {
+				lost[t] = true
+			}
+		}
+		for t := range lost {
+			sc.DenseLost = append(sc.DenseLost, t)
+		}
+		sort.Slice(sc.DenseLost, func(a, b int) bool { return sc.DenseLost[a] < sc.DenseLost[b] })
+		if rng.Intn(2) == 0 {
+			// the retransmissions of one more (completed) round are lost as well
+			sc.Rounds = [][]TCPFate{{{Kind: "pass"}}}
+		}
+		if rng.Intn(2) == 0 {
+			// one lost row is a placeholder reading first and is rewritten with a measurement
+			// after it was reported: the stored reading (and so every retransmission) must not change
+			sc.RewriteAt = sc.DenseLost[rng.Intn(len(sc.DenseLost))]
+			for i := range sc.Rows {
+				if sc.Rows[i].Slot == sc.RewriteAt {
+					cl := []string{"sentinel", "unparsable"}[rng.Intn(2)]
+					sc.Rows[i].Class, sc.Rows[i].Text = cl, genValue(rng, cl)
+				}
+			}
+			sc.RewriteTo = genValue(rng, []string{"positive", "negative"}[rng.Intn(2)])
 		}
 	} else {
 		sc.Event = []string{"", "", "", "rotate", "rotate", "restart", "restart", "restart+rotate"}[rng.Intn(8)]
@@ -564,8 +641,18 @@ func runScenario(sc *scenario, b run.Batch, r *ev.Result) (fatal bool) {
 			return Deliver
 		}
 	}
+	fateDense := func(slot uint32, occ int) Fate {
+		for _, t := range sc.DenseLost {
+			if t == slot {
+				return Drop
+			}
+		}
+		return Deliver
+	}
 	if exh {
 		x.relay.SetPhase("originals", fateMask(sc.LossA))
+	} else if dense {
+		x.relay.SetPhase("originals", fateDense)
 	} else if sc.LateOrig {
 		x.relay.SetPhase("originals", func(uint32, int) Fate { return Late })
 	} else {
@@ -633,11 +720,34 @@ func runScenario(sc *scenario, b run.Batch, r *ev.Result) (fatal bool) {
 		}
 	}
 
+	// ---- a reported row is rewritten by the meter
+	if sc.RewriteTo != "" {
+		rows2 := append([]row(nil), sc.Rows...)
+		for i := range rows2 {
+			if rows2[i].Slot == sc.RewriteAt {
+				rows2[i].Text = sc.RewriteTo
+			}
+		}
+		x.trace("energy row of slot %d is rewritten: %q", sc.RewriteAt, sc.RewriteTo)
+		if err := env.WriteEnergy(energyFile(rows2, sc.Groups, glow.GenesisTime, sc.Seed)); err != nil {
+			return inconc("%v", err)
+		}
+		if !waitTicks(client.VerifTicks() + 2) {
+			return inconc("report loop did not advance 2 ticks within 30s")
+		}
+		if err := x.relay.Barrier(); err != nil {
+			return inconc("%v", err)
+		}
+		r.Count("rows_rewritten_after_first_report", 1)
+	}
+
 	// ---- faulty rounds
 	for k, fates := range sc.Rounds {
 		x.proxy.SetPlan(fates)
 		if exh {
 			x.relay.SetPhase(fmt.Sprintf("round%d", k), fateMask(sc.LossB))
+		} else if dense {
+			x.relay.SetPhase(fmt.Sprintf("round%d", k), func(uint32, int) Fate { return Drop })
 		} else if sc.LateOrig {
 			x.relay.SetPhase(fmt.Sprintf("round%d", k), fateRandom(fmt.Sprintf("r%d", k), 20, 70, 10, 0))
 		} else {
@@ -772,6 +882,15 @@ func runScenario(sc *scenario, b run.Batch, r *ev.Result) (fatal bool) {
 	if exh {
 		r.Count("exhaustive_scenarios_judged", 1)
 	}
+	if dense {
+		r.Count("dense_scenarios_judged", 1)
+		for _, t := range sc.DenseBound {
+			idx := int(t - pre.Offset)
+			if pre.Offset == snap.Offset && idx >= 8 && pre.Bitfield[idx/8-1] == 0xff && !pre.Bit(idx) {
+				r.Count("dense.full_byte_then_missing_slot_before_final_round", 1)
+			}
+		}
+	}
 	var sig []string
 	recoveredHere := 0
 	readings := 0
@@ -873,7 +992,9 @@ func child(b run.Batch, r *ev.Result) {
 	fmt.Sscan(b.P("to"), &to)
 	for i := from; i < to; i++ {
 		sc := &scenario{Kind: b.Kind, Index: i}
-		if b.Kind == "exhaustive" {
+		if b.Kind == "dense" {
+			sc.Seed = b.Seed*1000003 + 300000 + int64(i)
+		} else if b.Kind == "exhaustive" {
 			sc.Seed = b.Seed*1000003 + 7777
 			sc.LossA = i >> exhaustiveM
 			sc.LossB = i & (1<<exhaustiveM - 1)
